@@ -569,7 +569,9 @@ def schema_extension_merges(ck, repo):
 
 def _sdl_assembly(ck, repo):
     f = repo.func("tartiflette/schema/registry.py", "SchemaRegistry.register_sdl")
-    fv = FuncView(f)
+    from ..q import inlined_view
+    fv = inlined_view(repo, f)   # file-finding / file-reading helpers count as part of register_sdl
+    f = fv.func
     p = f.positional_params  # schema_name, sdl, sdl_file_encoding, modules_sdl
     atoms = Atoms({f"isinstance({p[1]}, list)": "is_list", f"os.path.isfile({p[1]})": "is_file", f"os.path.isdir({p[1]})": "is_dir", p[3]: "has_modules"})
     store = [n for n in walk_no_nested(f.node) if isinstance(n, ast.Assign) and isinstance(n.targets[0], ast.Subscript) and unparse(n.targets[0].slice) == "'sdl'"]
@@ -601,7 +603,9 @@ def _sdl_assembly(ck, repo):
     # a `#` comment ends at the line break: pieces glued without one lose the next piece's first line
     au = [n for n in walk_no_nested(lp) if isinstance(n, ast.AugAssign) and unparse(n.target) == "full_sdl"] if lp is not None else []
     ok = len(au) == 1 and isinstance(au[0].op, ast.Add) and isinstance(au[0].value, ast.BinOp) and isinstance(au[0].value.left, ast.Constant) and \
-        isinstance(au[0].value.left.value, str) and "\n" in au[0].value.left.value and rd and au[0].value.right is rd[0]
+        isinstance(au[0].value.left.value, str) and "\n" in au[0].value.left.value and rd and \
+        (au[0].value.right is rd[0] or (isinstance(au[0].value.right, ast.Name) and any(isinstance(n, ast.Assign) and unparse(n.targets[0]) == au[0].value.right.id and n.value is rd[0]
+                                                                                          for n in ast.walk(f.node))))
     ck.ob("register_sdl: each file's content starts on a new line of the assembled SDL", ok, f, au[0] if au else f.node, construct="sdl:separator:files")
     pieces = []
     for fn_ in ("_import_builtins", "_import_modules"):
